@@ -33,10 +33,12 @@ impl vcf::variant::record::Ids for Ids<'_> {
         if self.is_empty() {
             Box::new(iter::empty())
         } else {
+            // SAFETY: The IDs are validated when the record is indexed (see `Fields::index`), and
+            // splitting valid UTF-8 at an ASCII delimiter yields valid UTF-8.
             Box::new(
                 self.0
                     .split(|&b| b == DELIMITER)
-                    .map(|buf| str::from_utf8(buf).unwrap()), // TODO
+                    .map(|buf| str::from_utf8(buf).unwrap()),
             )
         }
     }
